@@ -445,6 +445,7 @@ func main() {
 	}
 	// initial sets that contain the fabricated id / duplicates
 	scs = append(scs, scenario{"find", []int{real}, keys[0], 0}, scenario{"put", []int{real, 0}, keys[0], 1}, scenario{"get", []int{0, 0, 1}, keys[0], 0}, scenario{"join", []int{0, 0}, keys[0], 0})
+	longHistories()
 	hugeRepeat = evid.Pick(run, 64, 1000)
 	limit := evid.Pick(run, 400_000, 0)
 	var wg sync.WaitGroup
